@@ -172,10 +172,15 @@ def keyed_cache_values(repo, rep, rule):
                     out |= origins(x, depth + 1)
                 return out or {'const'}
             return {src(e)[:50]}
-        for st in ast.walk(f.node):
-            if not (isinstance(st, ast.Assign) and any(isinstance(t, ast.Subscript) and isinstance(t.value, ast.Name) and t.value.id == store
-                                                       for t in st.targets)):
-                continue
+        stores_ = [st for st in ast.walk(f.node) if isinstance(st, ast.Assign) and any(
+            isinstance(t, ast.Subscript) and isinstance(t.value, ast.Name) and t.value.id == store for t in st.targets)]
+        if stores_:
+            n += 1
+            rep.check(len(stores_) == 1, rule, 'keyed-cache:%s:entry-published-once' % f.qualname, '%s:%d' % (m.relpath, stores_[0].lineno),
+                      'an entry is stored once, with its final value',
+                      '%s stores into %s at lines %s: an entry is visible to other calls (and threads) before it has its final value - a reader in '
+                      'between takes the placeholder for the answer' % (f.key, store, [x.lineno for x in stores_]), nontrivial=True)
+        for st in stores_:
             t = next(t for t in st.targets if isinstance(t, ast.Subscript))
             n += 1
             limit[0] = st.lineno
